@@ -88,7 +88,7 @@ OUTSIDE = [
     "histories longer than the stated k (bounded model checking of the history quantifier, no induction)",
     "Interferometer datasets / transformers / the pylops inversion (pylops is absent); only the factory route for a non-Imaging dataset is constructed",
     "Imaging.w_tilde with a symbolic noise map or PSF (read only with concrete noise/PSF on the inversion level); signal_to_noise_map only in dedicated short histories (it forks on the sign of every pixel)",
-    "Voronoi / Delaunay mappers, interpolated_array_from, magnification_* of MapperValued; positive-only solver (use_positive_only_solver=False), check_reconstruction=False",
+    "Voronoi / Delaunay mappers, interpolated_array_from, magnification_*, max_pixel_* of MapperValued (argmax / argsort of symbolic values fork on every comparison); positive-only solver (use_positive_only_solver=False), check_reconstruction=False",
     "data_with_complex_gaussian_noise_added (complex arithmetic on the RNG draws) - its seeding goes through gaussian_noise_via_shape_and_sigma_from, which is covered",
     "bit-exact determinism of compiled / BLAS routines; float64 rounding (exact real arithmetic; every sat verdict replayed in float64)",
     "aliasing that never leads to a changed value (e.g. Grid2D(values=slim) keeps a reference to the caller's array)",
@@ -1215,7 +1215,6 @@ def level_inversion(inp, mask_id, w_tilde, full=False):
                   ("reconstruction_dict", lambda o: list(o.reconstruction_dict.values())),
                   ("data_subtracted_dict", lambda o: list(o.data_subtracted_dict.values())),
                   ("curvature_reg_matrix_reduced", lambda o: o.curvature_reg_matrix_reduced)]
-        q_mv += [("max_pixel_centre", lambda o: o.max_pixel_centre)]
     ops = [("noop", "read", lambda G: None)]
     for who, qs in (("mapper", q_mapper), ("inv", q_inv), ("mv", q_mv), ("mv0", q_mv)):
         ops += [("%s.%s" % (who, nm), "read", _rd(who, f)) for nm, f in qs]
